@@ -411,7 +411,7 @@ def _close_vec(ctx, got, exp, mech, what, fields, scale):
     ctx.close(r, 1e-12, mech, lambda: "%s: %r vs model %r" % (what(), got.tolist(), exp.tolist()), **fields)
 
 
-def _compare_model(ctx, ds, m, kind, src_dtype, fields, what):
+def _compare_model(ctx, ds, m, kind, src_dtype, fields, what, bin_scale=None):
     """(b) result vs model"""
     ctx.check(type(ds).__name__ == m.cls, "model_class", lambda: "%s: class %s, model %s" % (what(), type(ds).__name__, m.cls), **fields)
     arr = ds.array
@@ -424,8 +424,7 @@ def _compare_model(ctx, ds, m, kind, src_dtype, fields, what):
             else:
                 tol = 5e-5 if G.precision(src_dtype) == "32" else 1e-10
                 exp = np.asarray(m.arr, dtype=np.complex128)
-                sc = float(np.max(np.abs(exp))) if exp.size else 0.0
-                sc = sc if sc > 0 else 1.0
+                sc = bin_scale if bin_scale and bin_scale > 0 else 1.0  # block volume x max|source| (rounding noise scales with the inputs)
                 r = float(np.max(np.abs(arr.astype(np.complex128) - exp))) / sc if exp.size else 0.0
                 ctx.close(r, tol, "model_data" if tol == 1e-10 else "model_data_f32", lambda: "%s: block reduction differs from the model" % what(), **fields)
         else:
@@ -565,15 +564,23 @@ def _step(ctx, H, op):
         # (d) twin: copying variant first (source must stay bit-identical), then the in-place variant on the same object
         fc = dict(fields, variant="copy")
         fi = dict(fields, variant="inplace")
+        bin_scale = None
+        if k == "bin":
+            kwb = op["kw"]
+            nax = ds.array.ndim if kwb.get("axes") is None else (1 if isinstance(kwb["axes"], (int, np.integer)) else len(kwb["axes"]))
+            bf = kwb["bin_factors"]
+            vol = int(bf) ** nax if isinstance(bf, (int, np.integer)) else int(np.prod([int(f) for f in bf]))
+            amax = float(np.max(np.abs(ds.array))) if ds.array.size else 0.0
+            bin_scale = amax * (vol if kwb.get("reducer", "sum") == "sum" else 1)
         res = _call(ds, op, False)
         ctx.check(res is not None and res is not ds, "copy_variant_returns_new", lambda: "%s: copying variant returned %r" % (what(), type(res).__name__), **fc)
         _check_unchanged(ctx, H, set(), fc, what, direct=H.cur)
         if res is None or res is ds:
             return False
-        _compare_model(ctx, res, m_new, k, src_dtype, fc, what)
+        _compare_model(ctx, res, m_new, k, src_dtype, fc, what, bin_scale)
         r = _call(ds, op, True)
         ctx.check(r is None, "inplace_returns_none", lambda: "%s: in-place variant returned %r" % (what(), type(r).__name__), **fi)
-        _compare_model(ctx, ds, m_new, k, src_dtype, fi, what)
+        _compare_model(ctx, ds, m_new, k, src_dtype, fi, what, bin_scale)
         _check_unchanged(ctx, H, {H.cur}, fi, what)
         # twin equality, bit for bit
         a1, a2 = res.array, ds.array
@@ -832,7 +839,10 @@ def _finish(ctx, H, start_cls, start_nd, extra_obs):
     ex["bigrams"] = " ".join(sorted("%s>%s" % b for b in ctx.state["op_bigrams"]))
     ex["abstract_states"] = " ".join(sorted("%s/%dD/%s" % s for s in ctx.state["abstract_states"]))
     cur = H.live[H.cur][0]
-    ctx.observe(history=H.log, live=len(H.live), final_class=type(cur).__name__, final_shape=tuple(cur.array.shape), **extra_obs)
+    if "ops" in extra_obs:  # bounded-exhaustive case: the op names are the history
+        ctx.observe(live=len(H.live), final="%s%s" % (type(cur).__name__, tuple(cur.array.shape)), **extra_obs)
+    else:
+        ctx.observe(history=H.log, live=len(H.live), final="%s%s" % (type(cur).__name__, tuple(cur.array.shape)), **extra_obs)
 
 
 def _run_exh(spec, idx, ctx):
